@@ -260,6 +260,8 @@ def _rand_layout(rng, depth, allow_record=True, allow_union=False):
     """a random VALID layout (returned with its length), larger and deeper than the model checker's bound: every list class
     and index width, offsets that do not start at zero, gaps / overlaps / out-of-order lists, all five option encodings,
     IndexedArray indirection, multidimensional NumPy leaves, records"""
+    if allow_record and depth >= 2 and rng.random() < 0.2:
+        return _rand_record_layout(rng, depth, allow_union)
     n = rng.randint(4, 9)
     L = _rand_leaf(rng, n)
     length = n
@@ -328,6 +330,48 @@ def _rand_layout(rng, depth, allow_record=True, allow_union=False):
             k = min(length, olen)
             k = rng.randint(0, k) if rng.random() < 0.3 else k
             L = {"c": "Record", "tuple": 0, "n": k, "names": ["x", "y"], "xs": [L, other]}
+            length, isopt = k, False
+    return L, length
+
+
+def _wrap_option(rng, L, length):
+    """one of the five option encodings around L (which must not be option-type or indexed itself)"""
+    kind = rng.choice(["opt", "bytemask", "bitmask", "unmasked"])
+    if kind == "opt":
+        k = rng.randint(1, 6)
+        return {"c": "IndexedOption", "w": rng.choice(["64", "32"]),
+                "i": [rng.choice([-1] + list(range(length))) if length else -1 for _ in range(k)], "x": L}, k
+    if kind == "bytemask":
+        k = rng.randint(0, length)
+        return {"c": "ByteMasked", "m": [rng.choice([0, 1]) for _ in range(k)], "vw": rng.randint(0, 1), "x": L}, k
+    if kind == "bitmask":
+        k = rng.randint(0, length)
+        return {"c": "BitMasked", "m": [rng.randint(0, 255) for _ in range((k + 7) // 8 + rng.randint(0, 1))], "vw": rng.randint(0, 1),
+                "lsb": rng.randint(0, 1), "n": k, "x": L}, k
+    return {"c": "Unmasked", "x": L}, length
+
+
+def _rand_record_layout(rng, depth, allow_union=False):
+    """records in the middle: option-type fields below, options and lists above (what ak.zip / ak.mask / ak.pad_none
+    of records leave behind)"""
+    fields, lens = [], []
+    for _ in range(2):
+        F, n = _rand_layout(rng, rng.randint(0, 1), allow_record=False)
+        if F.get("c") not in ("IndexedOption", "ByteMasked", "BitMasked", "Unmasked", "Indexed") and rng.random() < 0.7:
+            F, n = _wrap_option(rng, F, n)
+        fields.append(F)
+        lens.append(n)
+    length = min(lens)
+    L = {"c": "Record", "tuple": 0, "n": length, "names": ["x", "y"], "xs": fields}
+    isopt = False
+    for _ in range(rng.randint(0, 2)):
+        if not isopt and rng.random() < 0.6:
+            L, length = _wrap_option(rng, L, length)
+            isopt = True
+        else:
+            k = rng.randint(0, 4)
+            cuts = sorted(rng.randint(0, length) for _ in range(k + 1))
+            L = {"c": "ListOffset", "w": rng.choice(["64", "32", "U32"]), "o": cuts, "x": L}
             length, isopt = k, False
     return L, length
 
@@ -462,37 +506,23 @@ def record_chains(worker, seed, ntraces, maxops, env=None):
         return {"act": op, "args": a, "from": layout, "fromty": ty, "len": len(layout.get("d", [])) if False else None,
                 "chain": hist}
 
-    for t, ops in enumerate(plans):
-        res = answers.get(t)
-        if res is None:
-            # the worker died inside this chain: find the step by re-running prefixes (each alone)
-            steps = wcases[t]["steps"]
-            culprit, cur_layout, cur_type = None, None, None
-            for k in range(1, len(steps) + 1):
-                ans, cr = replay.run_worker(worker, [{"id": 0, "steps": steps[:k]}], env=env)
-                if cr:
-                    culprit = k - 1
-                    break
-                last = ans[0][-1]
-                if last.get("ok") == 1 and "layout" in last and not last.get("scalar") and last.get("valid", "") == "":
-                    cur_layout, cur_type = last["layout"], last.get("type")
-            if culprit is None or culprit == 0:
-                problems.append(({"act": "chain", "worker_case": wcases[t]}, "CRASH: " + crashed.get(t, "worker died")))
-            else:
-                op, a = ops[culprit - 1]
-                m = meta(op, a, cur_layout, cur_type, [o for o, _ in ops[:culprit]])
-                m["worker_case"] = {"id": 0, "steps": steps[:culprit + 1]}
-                problems.append((m, "CRASH: " + cr[0][1]))
-            continue
+    def process(t, ops, res, upto=None):
+        """events of chain t from the worker's answers; returns (events, metas, complete): complete = every step up to
+        `upto` was inside the model's domain and recorded"""
         b = res[0]
         if b.get("ok") != 1 or b.get("valid", "") != "":
-            problems.append(({"act": "chain", "worker_case": wcases[t]},
+            problems.append(({"act": "chain", "worker_case": wcases[t], "_t": t, "_step": 0},
                              "harness: driver built an unusable layout: %r" % (b.get("msg") or b.get("valid"))))
-            continue
+            return [], [], False
         cur_json, cur_type, cur_layout = b["json"], b["type"], b["layout"]
         events, ms = [], []
+        complete = True
         for k, ((op, a), r) in enumerate(zip(ops, res[1:])):
+            if upto is not None and k >= upto:
+                break
             m = meta(op, a, cur_layout, cur_type, [o for o, _ in ops[:k + 1]])
+            m["_t"], m["_step"] = t, k + 1
+            complete = False
             try:
                 ev = {"op": op, "args": a, "v": _tag(json.loads(cur_json)), "T": parse_type(cur_type)}
             except ValueError:
@@ -524,14 +554,47 @@ def record_chains(worker, seed, ntraces, maxops, env=None):
                 m["lib"] = "%s: %s" % (r.get("exc"), r.get("msg"))
                 events.append(ev)
                 ms.append(m)
-            elif op == "same" and any(t in str(r.get("harness")) for t in ("not a", "not an", "wrong class")):
-                continue                                # conversion not defined for this node class: no call was made
+            elif op == "same" and any(tok in str(r.get("harness")) for tok in ("not a", "not an", "wrong class")):
+                pass                                    # conversion not defined for this node class: no call was made
             else:
                 problems.append((m, "harness: " + str(r.get("harness"))))
                 break
-        if events:
-            traces.append(events)
-            metas.append(ms)
+            complete = True
+        return events, ms, complete, (cur_layout, cur_type)
+
+    for t, ops in enumerate(plans):
+        res = answers.get(t)
+        if res is None:
+            # the worker died inside this chain: find the step by re-running prefixes (each alone)
+            steps = wcases[t]["steps"]
+            culprit, lastgood, cr = None, None, None
+            for k in range(1, len(steps) + 1):
+                ans, cr = replay.run_worker(worker, [{"id": 0, "steps": steps[:k]}], env=env)
+                if cr:
+                    culprit = k - 1
+                    break
+                lastgood = ans[0]
+            if culprit is None or culprit == 0 or lastgood is None:
+                problems.append(({"act": "chain", "worker_case": wcases[t], "_t": t, "_step": 0}, "CRASH: " + crashed.get(t, "worker died")))
+                continue
+            out = process(t, ops, lastgood, upto=culprit - 1)
+            events, ms, complete = out[0], out[1], out[2]
+            if events:
+                traces.append(events)
+                metas.append(ms)
+            if complete and len(out) > 3:
+                op, a = ops[culprit - 1]
+                m = meta(op, a, out[3][0], out[3][1], [o for o, _ in ops[:culprit]])
+                m["_t"], m["_step"] = t, culprit
+                m["worker_case"] = {"id": 0, "steps": steps[:culprit + 1]}
+                problems.append((m, "CRASH: " + cr[0][1]))
+            # (otherwise the crashing call was made on a value outside the model's domain -- e.g. 64-bit garbage a known
+            #  finding left behind, summed until signed overflow: nothing is claimed about it)
+            continue
+        out = process(t, ops, res)
+        if out[0]:
+            traces.append(out[0])
+            metas.append(out[1])
     return traces, metas, problems
 
 
